@@ -38,10 +38,10 @@ reported errors are logged in the order in which they happen. -/
 def Iface.traced {σ : Type} (I : Iface σ) : Iface (σ × List Ev) :=
   I.instrument (fun id tvs => [Ev.call id tvs]) (fun e => [Ev.error e])
 
-/-- The handler invocation a call leads to, if it gets that far: slot present,
+/-- The handler invocation a call leads to, if it gets that far: unitSlot present,
 arity right, every parameter converts. -/
 def invocation {σ : Type} (I : Iface σ) (call : CommandCall) : Option (Nat × List TVal) :=
-  match slot call with
+  match unitSlot call with
   | none => none
   | some id =>
     match I.cmds[id]? with
@@ -74,8 +74,8 @@ theorem execute_instrument (call : CommandCall) (w : Writer) (s : σ) (l : List 
       (((execute I call w s).1, l ++ callLog fc (invocation I call)),
        (execute I call w s).2.1, (execute I call w s).2.2) := by
   rw [execute_eq, execute_eq]
-  unfold resolve invocation
-  cases hs : slot call with
+  unfold resolveCmd invocation
+  cases hs : unitSlot call with
   | none => simp [callLog]
   | some id =>
     simp only [Option.bind_some, instrument_cmds_get]
